@@ -1990,7 +1990,9 @@ class Color(object):
         h = value[0]
         s = value[1]
         l = value[2]
-        self.value = Color.hsl_to_int(h, s, l, 1.0)
+        # The hue is in degrees like the hue property, the opacity is kept.
+        opacity = self.opacity if self.value is not None else 1.0
+        self.value = Color.hsl_to_int((h / 360.0) % 1.0, s, l, opacity)
 
     def distance_to(self, other):
         return Color.distance(self, other)
